@@ -20,11 +20,14 @@ from sa.loader import AnalysisError, call_name, calls_in, kwarg, walk_local
 
 PROPERTY = "C12"
 EXPLANATION = (
-    "Sibling cross-check (agreement table): each writer/accessor site's carried-variant expression is lifted and "
-    "folded over a 15-element universe encoding every membership pattern in (core, minor-only, added, lost) and "
-    "must equal core|minor|added - lost (keys of the VCF table: a superset). Replicated-mutable rule `[ctor()] * n`. "
-    "REF/ALT block of write_vcf folded on one representative operation per kind (substitution, insertion, deletion, "
-    "MNP). Index-pair agreement between the genotype-table store and its GT/MA/MI reads; suffix dispatch in genotype()."
+    "Both writers folded whole by the analysis' interpreter with a recording print: write_decomposition on sample solutions "
+    "(one row per carried variant incl. two variants of one copy at one site, empty row for a copy without variants, gained "
+    "and lost variants, repeated minor alleles) and write_vcf on scenarios of one and two solutions (different / identical "
+    "copies, three copies, a fusion-derived copy, copies that gained a silent or a core variant, a copy that lost a "
+    "variant): records, GT / MA / MI per copy, POS / REF / ALT per variant kind, header columns, `#Solution n` numbering. "
+    "The carried-variant expression of every writer / accessor site is additionally folded over a 15-element universe of "
+    "membership patterns (core, minor-only, added, lost). Replicated-mutable rule `[ctor()] * n`. The output dispatch "
+    "(suffix -> writer, order of solutions) is decided by folding genotype() whole on scenarios of stage results."
 )
 ASSUMPTIONS = ["display-only sites (MinorSolution.get_mutation_coverages, debug printers) are listed but exempt from R1"]
 
